@@ -37,6 +37,11 @@ def _regen_boc_cnt():
     return boccnt.regenerate()
 
 
+def _regen_tl_parser():
+    from ..translate import tlengine
+    return tlengine.regenerate()
+
+
 SPEC = dict(
     manifest=dict(
         category='proof',
@@ -101,7 +106,8 @@ SPEC = dict(
              'and are EQUAL to them when the parse returns (they can be smaller when the parse raises for a reason the cost model does not follow); nothing else ticks but the completion-tag search (<= 7 per cell); hence the three '
              'loops of the code as written start <= len+1 iterations and all five <= 3*len+5. The tick placement is validated against CPython (first-body-line events of the six for statements = the ticks Lean counts) on 262 bags per change. '
              'Proving the bridge found the cost model stale: bocGuarded still had the header pre-check 1+5*size_bytes of before fix 36d5bc1 (the library has 1+3*size_bytes), so bocCost was 0 on accepted bags of 6+3s..6+5s-1 bytes; corrected. '
-             'The header comprehensions and the CRC loop (bocCost.hdr / crc), the unary-loop iterations (dictParse steps) and the TL / order / constructor counters remain cost model + measurement.',
+             'The header comprehensions and the CRC loop (bocCost.hdr / crc), the unary-loop iterations (dictParse steps) and the TL / order / constructor counters remain cost model + measurement. '
+             'TL PARSER ON THE SOURCE: TlSchemas.deserialize is regenerated from tl/generator.py on every run (Generated/TlEngine.lean, shared with C14) and proved equal to the C14 hand model for all inputs; c19_src_tl_total (Properties/C14.lean, which can import that model) proves that for every table with distinct field names and no cycle of bare references and EVERY byte string the regenerated code run with recursion depth (len/4+1)(R+2) and len+2 iterations of its while loop returns what it returns with any larger budgets - no loop or recursion of the code as written runs beyond a bound in the input length (each while iteration consumes >= 1 content byte or breaks; the vector loop is bounded by the guard); the step COUNT stays the cost model\'s (c19_tl_total).',
         level_note='Trusted: Lean kernel (propext, Classical.choice, Quot.sound); Model/Cost.lean as a hand transcription of the loops of '
                    'cell.py (order, to_boc, __init__/calculate_hashes), deserialize.py, hashmap/parse.py, tl/generator.py (upper-bound '
                    'convention: validity failures that only cut work short are not modelled); harness/translate/tl_cost.py + TlEnv (the bundled '
@@ -116,8 +122,9 @@ SPEC = dict(
                  ('deserialize.py deserialize_boc_header, deserialize_cell, deserialize->Generated/BocHeader.lean, BocCells.lean', _regen_boc_parser),
                  (_emit_tie_name(), _regen_boc_emitter),
                  ('hashmap/parse.py parse + deserialize_hashmap_node->Generated/HashmapCnt.lean (calls counted)', _regen_dict_cnt),
-                 ('deserialize.py deserialize_cell, deserialize->Generated/BocCnt.lean (loop iterations counted)', _regen_boc_cnt)],
-    lean_targets=['TonVerif.Proofs.SrcBocDeser', 'TonVerif.Proofs.SrcOrderAny', 'TonVerif.Proofs.SrcBocAny', 'TonVerif.Proofs.SrcBocCnt'],
+                 ('deserialize.py deserialize_cell, deserialize->Generated/BocCnt.lean (loop iterations counted)', _regen_boc_cnt),
+                 ('tl/generator.py TlSchemas.deserialize->Generated/TlEngine.lean (c19_src_tl_total, stated in Properties/C14.lean)', _regen_tl_parser)],
+    lean_targets=['TonVerif.Proofs.SrcBocDeser', 'TonVerif.Proofs.SrcOrderAny', 'TonVerif.Proofs.SrcBocAny', 'TonVerif.Proofs.SrcBocCnt', 'TonVerif.Proofs.SrcTlParser'],
     design_ref='DESIGN.md §6 C19',
     rule='one case = one public call on one adversarial input with its model step count; families: double/triple-ref chains 10..1000, '
          'depth-1023 chains, diamonds, wide sharing, random DAGs (order, to_boc x flag sets, from_boc, construction); BoC byte strings '
